@@ -12,6 +12,7 @@ mod c13;
 mod c14;
 mod c15;
 mod c16;
+mod c16tok;
 mod c17;
 mod c18;
 mod c19;
